@@ -24,6 +24,20 @@ def sh(cmd, cwd=None, env=None, timeout=1800):
     return p.returncode, p.stdout
 
 
+def overlay_for(out_dir, prop, d, name, tag):
+    """the agent's overlay (a Docker-less TestMain for internal/bgp/frr): re-target its absolute paths to worktree d"""
+    ovsrc = os.path.join(out_dir, "overlay.json")
+    if not os.path.exists(ovsrc):
+        return ""
+    txt = re.sub(r'/tmp/seed\d*-%s-out' % prop, "@@OUT@@", open(ovsrc).read())
+    txt = re.sub(r'/tmp/seed\d*-%s' % prop, d, txt)
+    txt = txt.replace("@@OUT@@/%s" % os.path.basename(out_dir.rstrip("/")), out_dir.rstrip("/"))
+    txt = txt.replace("@@OUT@@", os.path.dirname(out_dir.rstrip("/")))
+    ovp = os.path.join("/tmp", "sv-overlay-%s-%s.json" % (name, tag))
+    open(ovp, "w").write(txt)
+    return "-overlay %s" % ovp
+
+
 def main():
     out_dir, name = sys.argv[1], sys.argv[2]
     extra = []
@@ -54,10 +68,17 @@ def main():
         tests_ok = True
         res["package_tests"] = {}
         for pkg in touched:
+            ov = ""
             if pkg.startswith("internal/bgp/frr") and not pkg.startswith("internal/bgp/frrk8s"):
-                res["package_tests"][pkg] = "skipped (needs Docker on the untouched tree too)"
-                continue
-            rc, o = sh("go test -vet=off -count=1 %s ./%s/" % (SKIP.get(pkg, ""), pkg), cwd=A)
+                ov = overlay_for(out_dir, prop, A, name, "pkg")
+                if not ov or pkg != "internal/bgp/frr":
+                    res["package_tests"][pkg] = "skipped (needs Docker on the untouched tree too)"
+                    if pkg != "internal/bgp/frr" and ov:   # a template change: the golden tests of the parent package
+                        rc, o = sh("go test -vet=off -count=1 %s ./internal/bgp/frr/" % ov, cwd=A)
+                        res["package_tests"]["internal/bgp/frr"] = "ok (Docker-less TestMain overlay)" if rc == 0 else "FAIL: " + o[-800:]
+                        tests_ok = tests_ok and rc == 0
+                    continue
+            rc, o = sh("go test -vet=off -count=1 %s %s ./%s/" % (SKIP.get(pkg, ""), ov, pkg), cwd=A)
             res["package_tests"][pkg] = "ok" if rc == 0 else "FAIL: " + o[-800:]
             tests_ok = tests_ok and rc == 0
         res["existing_tests_pass_with_change"] = tests_ok
@@ -70,20 +91,11 @@ def main():
             if os.path.exists(src) and demo.endswith("_test.go"):
                 os.makedirs(os.path.join(d, demo_pkg), exist_ok=True)
                 shutil.copy(src, os.path.join(d, demo_pkg, os.path.basename(demo)))
-                ov = ""
-                ovsrc = os.path.join(out_dir, "overlay.json")
-                if "-overlay" in demo_run and os.path.exists(ovsrc):
-                    # the agent's overlay (a Docker-less TestMain for internal/bgp/frr): re-target its absolute paths
-                    txt = open(ovsrc).read().replace("/tmp/seed-%s-out" % prop, "@@OUT@@")
-                    txt = txt.replace("/tmp/seed-%s" % prop, d)
-                    txt = txt.replace("@@OUT@@/%s" % os.path.basename(out_dir.rstrip("/")), out_dir.rstrip("/"))
-                    txt = txt.replace("@@OUT@@", os.path.dirname(out_dir.rstrip("/")))
-                    ovp = os.path.join("/tmp", "sv-overlay-%s-%s.json" % (name, tag))
-                    open(ovp, "w").write(txt)
-                    ov = "-overlay %s" % ovp
+                ov = overlay_for(out_dir, prop, d, name, tag) if "-overlay" in demo_run else ""
                 rc, o = sh("go test -vet=off -count=1 %s %s %s ./%s/" % (race, ov, runflag, demo_pkg), cwd=d, timeout=900)
             else:  # a program: run the command the agent gave, inside the worktree
                 cmd = demo_run.replace("/tmp/seed-%s" % prop, d)
+                cmd = re.sub(r"/tmp/seed\d+-%s(?!-out)" % prop, d, cmd)
                 rc, o = sh(cmd, cwd=d)
             res["demo_" + tag] = "pass" if rc == 0 else "fail"
             res["demo_%s_tail" % tag] = o[-600:]
